@@ -62,6 +62,7 @@ func runC16(c *core.Ctx) {
 	runC16Single(k)
 	runC16FlateGuards(k)
 	runC16Zlib(k)
+	runC16Align(k)
 }
 
 // ---------------------------------------------------------------------
